@@ -107,11 +107,15 @@ CLAIMED = {
         "than the capacity buffered) and the action property LazyDemand (lazy: the source is advanced only while a driving "
         "reader waits for an unproduced message); the model is bound to strax.Mailbox by the lock-step replay of C05, and a TLC "
         "counterexample is replayed on the real mailbox where the same predicate is evaluated when the source is advanced. "
-        "Pipeline level: real pipelines (4 topologies x lazy/eager x capacities x pause points) run under the deterministic "
+        "Pipeline model: spec/Pipeline.tla with a consumer that stops pulling after k chunks is model-checked over all schedules, eager "
+        "and lazy, with and without savers, for run lengths N and 2N: EagerCap, LazyDemand (a stage passes its gate only on demand), "
+        "PauseBound (production after the pause bounded by the graph and the capacity, not the run length), quiescence without "
+        "deadlock; without backpressure the bounds must fail. Real chain runs with a pausing consumer are validated step by step "
+        "against that model (PipelineTrace.tla). Pipeline level: real pipelines (4 topologies x lazy/eager x capacities x pause points) run under the deterministic "
         "scheduler with a consumer that stops pulling; at quiescence source computations for N vs 2N chunks, len(_mailbox) "
         "after every step and the demand predicate at every source advance are recorded and judged by TLC (BackpressureObs.tla).",
    note="Pipeline schedules are sampled (seeded); quiescence = no enabled thread under the scheduler; timeouts never fire.",
-   technique="TLA+ model checking (CapInv, LazyDemand action property) with counterexample replay + scheduler-driven pipeline runs judged by TLC",
+   technique="TLA+ model checking (Mailbox.tla: CapInv, LazyDemand; Pipeline.tla: EagerCap, LazyDemand, PauseBound) with counterexample replay + TLC trace validation of real pausing chain runs + scheduler-driven pipeline runs judged by TLC",
    design="4/C13"),
  "C11": dict(
    text="spec/Components.tla defines ToRun / ToLoad / ToSave / MustError by set comprehension over the dependency graph, the stored "
